@@ -341,6 +341,80 @@ class InterfaceBase(NameAndModuleComparisonMixin, SpecificationBasePy):
 adapter_hooks = _use_c_impl([], 'adapter_hooks')
 
 
+class _WeakIdentityKeyDictionary:
+    """
+    A minimal mapping from weakly referenced objects to values that
+    finds its keys by *identity*.
+
+    `weakref.WeakKeyDictionary` finds them by equality, and interfaces
+    are equal when their names and modules are: two distinct interface
+    objects of the same name (a module that is reloaded, a class
+    statement that runs twice) would share one entry there, and only
+    one of them would ever be told about a change.
+    """
+
+    __slots__ = ('_data', '__weakref__')
+
+    def __init__(self):
+        self._data = {}  # id(key) -> (weak reference to key, value)
+
+    def _entry(self, key):
+        entry = self._data.get(id(key))
+        if entry is not None and entry[0]() is key:
+            return entry
+        return None
+
+    def __getitem__(self, key):
+        entry = self._entry(key)
+        if entry is None:
+            raise KeyError(key)
+        return entry[1]
+
+    def get(self, key, default=None):
+        entry = self._entry(key)
+        return default if entry is None else entry[1]
+
+    def __contains__(self, key):
+        return self._entry(key) is not None
+
+    def __setitem__(self, key, value):
+        entry = self._entry(key)
+        if entry is not None:
+            self._data[id(key)] = (entry[0], value)
+            return
+
+        def remove(ref, key_id=id(key), selfref=weakref.ref(self)):
+            self = selfref()
+            if self is not None:
+                entry = self._data.get(key_id)
+                if entry is not None and entry[0] is ref:
+                    del self._data[key_id]
+
+        self._data[id(key)] = (weakref.ref(key, remove), value)
+
+    def __delitem__(self, key):
+        if self._entry(key) is None:
+            raise KeyError(key)
+        del self._data[id(key)]
+
+    def keys(self):
+        keys = [ref() for ref, _ in list(self._data.values())]
+        return [key for key in keys if key is not None]
+
+    def __iter__(self):
+        return iter(self.keys())
+
+    def __len__(self):
+        return len(self.keys())
+
+    def __eq__(self, other):
+        if isinstance(other, _WeakIdentityKeyDictionary):
+            return self is other
+        return NotImplemented
+
+    __hash__ = None
+
+
 class Specification(SpecificationBase):
     """Specifications
 
@@ -372,7 +446,7 @@ class Specification(SpecificationBase):
         # 4700 had 0 dependents, 1400 had 1, 382 had 2 and so on. Only one
         # for <type> had 1664. So there's savings to be had deferring
         # the creation of dependents.
-        self._dependents = None  # type: weakref.WeakKeyDictionary
+        self._dependents = None  # type: _WeakIdentityKeyDictionary
         self._bases = ()
         self._implied = {}
         self._v_attrs = None
@@ -384,7 +458,7 @@ class Specification(SpecificationBase):
     @property
     def dependents(self):
         if self._dependents is None:
-            self._dependents = weakref.WeakKeyDictionary()
+            self._dependents = _WeakIdentityKeyDictionary()
         return self._dependents
 
     def subscribe(self, dependent):
